@@ -388,6 +388,10 @@ def report():
     """Merges results.jsonl (mapped checks) with results2.jsonl (survivors re-run against further
     checks by hand-picked mapping) and applies mutation/triage_rules.py to what is left."""
     rs = [json.loads(l) for l in open(os.path.join(OUTDIR, "results.jsonl"))]
+    for extra in sorted(os.listdir(OUTDIR)):
+        # further batches: results<tag>.jsonl written by `run --tag <tag>` (ids carry the tag)
+        if extra.startswith("results") and extra not in ("results.jsonl", "results2.jsonl") and extra.endswith(".jsonl"):
+            rs += [json.loads(l) for l in open(os.path.join(OUTDIR, extra))]
     r2p = os.path.join(OUTDIR, "results2.jsonl")
     second = {}
     if os.path.exists(r2p):
